@@ -23,29 +23,29 @@ Print Assumptions C15_same_value_PR.
 
 (* finiteness: on admissible arguments including exact zeros of density and speed, the link laws of
    both engines are defined over the partial reals and equal their value over the reals (the origin
-   laws, incl. the zero-speed guard of the mainstream origin, are C07_mainstream_defined_* /
-   C07_ramp_defined_*) *)
-Theorem C15_flow_finite_numpy : flow_finite (@Np.links_get_flow PR NumPR) (@Np.links_get_flow R NumR).
+   laws, incl. the zero-speed guard of the mainstream origin, are the C07 mainstream_defined and
+   ramp_defined theorems) *)
+Theorem C15_flow_finite_numpy : C15fin_spec.flow_finite (@Np.links_get_flow PR NumPR) (@Np.links_get_flow R NumR).
 Proof. exact np_flow_finite. Qed.
 Print Assumptions C15_flow_finite_numpy.
-Theorem C15_flow_finite_casadi : flow_finite (@Cs.links_get_flow PR NumPR) (@Cs.links_get_flow R NumR).
+Theorem C15_flow_finite_casadi : C15fin_spec.flow_finite (@Cs.links_get_flow PR NumPR) (@Cs.links_get_flow R NumR).
 Proof. exact cs_flow_finite. Qed.
 Print Assumptions C15_flow_finite_casadi.
-Theorem C15_density_finite_numpy : density_finite (@Np.links_step_density PR NumPR) (@Np.links_step_density R NumR).
+Theorem C15_density_finite_numpy : C15fin_spec.density_finite (@Np.links_step_density PR NumPR) (@Np.links_step_density R NumR).
 Proof. exact np_density_finite. Qed.
 Print Assumptions C15_density_finite_numpy.
-Theorem C15_density_finite_casadi : density_finite (@Cs.links_step_density PR NumPR) (@Cs.links_step_density R NumR).
+Theorem C15_density_finite_casadi : C15fin_spec.density_finite (@Cs.links_step_density PR NumPR) (@Cs.links_step_density R NumR).
 Proof. exact cs_density_finite. Qed.
 Print Assumptions C15_density_finite_casadi.
-Theorem C15_Veq_finite_numpy : Veq_finite (@Np.links_Veq PR NumPR) (@Np.links_Veq R NumR).
+Theorem C15_Veq_finite_numpy : C15fin_spec.Veq_finite (@Np.links_Veq PR NumPR) (@Np.links_Veq R NumR).
 Proof. exact np_Veq_finite. Qed.
 Print Assumptions C15_Veq_finite_numpy.
-Theorem C15_Veq_finite_casadi : Veq_finite (@Cs.links_Veq PR NumPR) (@Cs.links_Veq R NumR).
+Theorem C15_Veq_finite_casadi : C15fin_spec.Veq_finite (@Cs.links_Veq PR NumPR) (@Cs.links_Veq R NumR).
 Proof. exact cs_Veq_finite. Qed.
 Print Assumptions C15_Veq_finite_casadi.
-Theorem C15_speed_finite_numpy : speed_finite (@Np.links_step_speed PR NumPR) (@Np.links_step_speed R NumR).
+Theorem C15_speed_finite_numpy : C15fin_spec.speed_finite (@Np.links_step_speed PR NumPR) (@Np.links_step_speed R NumR).
 Proof. exact np_speed_finite. Qed.
 Print Assumptions C15_speed_finite_numpy.
-Theorem C15_speed_finite_casadi : speed_finite (@Cs.links_step_speed PR NumPR) (@Cs.links_step_speed R NumR).
+Theorem C15_speed_finite_casadi : C15fin_spec.speed_finite (@Cs.links_step_speed PR NumPR) (@Cs.links_step_speed R NumR).
 Proof. exact cs_speed_finite. Qed.
 Print Assumptions C15_speed_finite_casadi.
